@@ -119,3 +119,132 @@ class AssetDcf(Contract):
         ctx = dict(g=Obj('Timegrid', T=T), R=R, nv=nv, name='asset_name', c=S.from_numpy(c), x=S.from_numpy(x),
                    F=dict(idx=lambda p: idx[int(p)], ts=lambda p: ts[int(p)], asset=lambda p: 'asset_name' if mine[int(p)] else 'other'))
         return call, ctx
+
+
+@register
+class StorageFillLevel(Contract):
+    qualname = 'assets:Storage.fill_level'
+    prefix = 'C05.report'
+    properties = ('C05',)
+
+    def harness(self, H, case):
+        g = mk_root_grid(H)
+        T = g.get('T')
+        R, nv = H.int('n_rows'), H.int('n_vars')
+        H.assume(z3.And(R >= 0, nv >= 0))
+        m, F = mk_mapping(H, R, with_type=True)
+        name = H.str('asset_name')
+        p = z3.Int('wf!p')
+        H.assume(z3.ForAll([p], z3.Implies(z3.And(p >= 0, p < R), z3.And(F['idx'](p) >= 0, F['idx'](p) < nv)), patterns=[F['idx'](p)]))
+        H.assume(z3.ForAll([p], z3.Implies(z3.And(p >= 0, p < R, F['asset'](p) == name), z3.And(F['ts'](p) >= 0, F['ts'](p) < T)),
+                           patterns=[F['ts'](p)]))
+        x = H.real_arr('x', nv)
+        op = Obj('OptimProblem', mapping=m)
+        res = Obj('Results', x=x, value=H.real('value'), duals=None)
+        vals = {k: H.real(k) for k in ('eff_in', 'start_level', 'inflow')}
+        # the asset's window [a, b) in grid steps (steps with start <= t < end; the whole grid if start/end are None)
+        a, b = H.int('win_a'), H.int('win_b')
+        H.assume(z3.And(0 <= a, a <= b, b <= T))
+        tpf = g.get('__fun__')['tp']
+        st, en = H.int('asset_start'), H.int('asset_end')
+        k = z3.Int('win!k')
+        H.assume(z3.ForAll([k], z3.Implies(z3.And(k >= 0, k < T), z3.And(st <= tpf(k), tpf(k) < en) == z3.And(a <= k, k < b)), patterns=[tpf(k)]))
+        tz = g.get('tz')
+        if case['window'] == 'none':
+            # no window of its own: the grid's start / end delimit all steps (WF_TG)
+            H.assume(z3.And(st == g.get('start').t, en == g.get('end').t))
+            self_obj = Obj('Storage', name=name, timegrid=g, start=None, end=None, **vals)
+        else:
+            self_obj = Obj('Storage', name=name, timegrid=g, start=sym.TS(st, tz), end=sym.TS(en, tz), **vals)
+        for o, nm in ((m, 'mapping'), (x, 'x')):
+            H.protect[id(o)] = nm
+        return dict(self_obj=self_obj, args=[op, res], g=g, R=R, nv=nv, F=F, x=x, name=name, vals=vals, a=a, b=b, st=st, en=en)
+
+    def cases(self):
+        return [dict(window='own'), dict(window='none')]
+
+    def callees(self, case, ctx=None):
+        def timegrid_ctor(I, self_obj, args, kwargs):
+            """callee contract of Timegrid(start, end, freq, main_time_unit, ref_timegrid=g) (C19.restrict, proved on
+            Timegrid.__init__): the index-consistent sub-grid of the steps with start <= t < end"""
+            g = kwargs.get('ref_timegrid')
+            start, end = args[0], args[1]
+            I.require('callee-pre:Timegrid(ref).start', start.t == ctx['st'], kind='callee-pre')
+            I.require('callee-pre:Timegrid(ref).end', end.t == ctx['en'], kind='callee-pre')
+            I.require('callee-pre:Timegrid(ref).same_freq', sym.cmpop('Eq', kwargs.get('freq'), g.get('freq')), kind='callee-pre')
+            a, b = ctx['a'], ctx['b']
+            gdt = g.get('dt')
+            return Obj('Timegrid', T=b - a, I=Arr(b - a, lambda k: a + lift(k)), dt=Arr(b - a, lambda k, _f=gdt.f: _f(a + lift(k))))
+        return {'basic_classes:Timegrid': timegrid_ctor}
+
+    def post(self, H, case, outcome, I, ctx):
+        g = ctx['g']
+        T = g.get('T')
+        pc = list(I.pc) if I is not None else None
+        if outcome[0] != 'return':
+            yield ('C05.report.fill.no_raise', False if outcome[0] == 'raise' else Havoc(outcome[1]))
+            return
+        d = outcome[1]
+        if isinstance(d, Havoc):
+            yield ('C05.report.fill', d)
+            return
+        F, R, x, name, v = ctx['F'], ctx['R'], ctx['x'], ctx['name'], ctx['vals']
+        dt = g.get('dt')
+        mine = lambda p: S.and_(S.eq(F['asset'](p), name), S.eq(F['type'](p), 'd'))
+        first = lambda p: S.not_(S.exists(p, lambda q: S.and_(mine(q), S.eq(F['idx'](q), F['idx'](p)))))
+        xv = lambda p: x.f(F['idx'](p))
+        # net volume entering the storage through the variable of row p: eff * charged - discharged
+        net = lambda p: S.max_(0.0, -xv(p)) * v['eff_in'] + S.min_(0.0, -xv(p))
+        step_net = lambda t: S.psum(lambda p: S.ite(S.and_(mine(p), first(p), S.eq(F['ts'](p), t)), net(p), 0.0), 0, R, pc)
+        # inflow of step j: inflow rate x step length inside the asset's window, nothing outside
+        winflow = lambda j: S.ite(S.and_(S.ge(j, ctx['a']), S.lt(j, ctx['b'])), v['inflow'] * dt.f(j), 0.0)
+        yield ('C05.report.fill.length', S.eq(d.n, T))
+        yield ('C05.report.fill', S.forall(T, lambda t: S.eq(
+            d.f(t), S.psum(lambda tt: step_net(tt) + winflow(tt), 0, t + 1, pc) + v['start_level'])))
+
+    def schema(self, case):
+        return [('g_T', 'int', None), ('n_rows', 'int', None), ('n_vars', 'int', None), ('win_a', 'int', None), ('win_b', 'int', None),
+                ('eff_in', 'real', None), ('start_level', 'real', None), ('inflow', 'real', None),
+                ('map_index', 'int_fun', 'n_rows'), ('map_step', 'int_fun', 'n_rows'), ('map_row_is_mine', 'bool_fun', 'n_rows'),
+                ('g_dt', 'real_fun', 'g_T'), ('x', 'real_fun', 'n_vars')]
+
+    size_syms = ('g_T', 'n_rows', 'n_vars')
+
+    def menu(self, case, H, ctx):
+        F, name = ctx['F'], ctx['name']
+        mine = z3.Function('map_row_is_mine', z3.IntSort(), z3.BoolSort())
+        p = z3.Int('menu!p')
+        return [z3.ForAll([p], mine(p) == z3.And(F['asset'](p) == name, F['type'](p) == sym.strlit('d'))), ctx['g'].get('T') >= 1], []
+
+    def native(self, case, P):
+        import numpy as np
+        import pandas as pd
+        import eaopack as eao
+        from pyvc import native as N
+        T, R, nv = int(P['g_T']), int(P['n_rows']), int(P['n_vars'])
+        a0, b0 = int(P['win_a']), int(P['win_b'])
+        tg, synthetic = N.synthetic_grid(T, P['g_dt'])
+        pts = list(tg.timepoints) + [tg.end]
+        mine = [bool(b) for b in P['map_row_is_mine']]
+        m = pd.DataFrame({'asset': ['asset_name' if b else 'other' for b in mine], 'time_step': [int(v) for v in P['map_step']],
+                          'type': ['d'] * R}, index=[int(v) for v in P['map_index']])
+        if R == 0:
+            m = pd.DataFrame({'asset': pd.Series([], dtype=str), 'time_step': pd.Series([], dtype=int), 'type': pd.Series([], dtype=str)})
+        x = np.array([float(v) for v in P['x']])
+        op = eao.optimization.OptimProblem(c=np.zeros(nv), l=np.zeros(nv), u=np.ones(nv), mapping=m)
+        res = eao.optimization.Results(value=0.0, x=x, duals=None)
+        own = case.get('window', 'own') == 'own'
+        if not own and (a0, b0) != (0, T):
+            raise N.NotRealisable('no window but a != 0 or b != T')
+        st = eao.assets.Storage(name='asset_name', nodes=eao.assets.Node('n'), start=pts[a0] if own else None, end=pts[b0] if own else None, size=1e9, cap_in=1., cap_out=1.,
+                                start_level=float(P['start_level']), end_level=0., eff_in=float(P['eff_in']), inflow=float(P['inflow']))
+        st.timegrid = tg
+        call = lambda: st.fill_level(op, res)
+        idx, ts = [int(v) for v in P['map_index']], [int(v) for v in P['map_step']]
+        tg2, _ = N.synthetic_grid(T, P['g_dt'])
+        g = Obj('Timegrid', T=T, dt=S.from_numpy([float(v) for v in tg2.dt]))
+        ctx = dict(g=g, R=R, nv=nv, name='asset_name', x=S.from_numpy(x), a=a0, b=b0,
+                   vals=dict(eff_in=float(P['eff_in']), start_level=float(P['start_level']), inflow=float(P['inflow'])),
+                   F=dict(idx=lambda p: idx[int(p)], ts=lambda p: ts[int(p)], asset=lambda p: 'asset_name' if mine[int(p)] else 'other',
+                          type=lambda p: 'd'), synthetic=synthetic)
+        return call, ctx
